@@ -327,6 +327,8 @@ fn scenarios(seed: u64, thorough: bool) -> Vec<Scn> {
     ];
     // a conflict whose natural conflict-copy name is already taken by other content: the numbered fallback is active
     s.push(Scn { name: "S11-numbered-conflict", init_a: both(z()), init_b: both(z()), prior_sync: true, edits: vec![] });
+    // a file above 1 MiB (a staging strategy may switch to pre-sizing / chunking there)
+    s.push(Scn { name: "S12-propagate-1.5MiB", init_a: both(z()), init_b: both(z()), prior_sync: true, edits: vec![('A', "f", Some(Rng::new(seed ^ 0x15).bytes(1_572_864 + 17)))] });
     s.push(Scn { name: "S4-delete-A", init_a: both(z()), init_b: both(z()), prior_sync: true, edits: vec![('A', "f", None)] });
     s.push(Scn { name: "S7-delete-vs-modify", init_a: both(z()), init_b: both(z()), prior_sync: true, edits: vec![('A', "f", None), ('B', "f", Some(y()))] });
     if thorough {
@@ -1267,6 +1269,31 @@ fn c09_scenario(slot: &Slot9, s: &S9, seed: u64, max_kills: u64, evals: &AtomicU
         if out.len() >= 3 {
             return out;
         }
+        // a history continues from the crash state: the source file that was in flight is replaced by a SHORTER
+        // version, then the same command runs; afterwards the destination must hold exactly the new source bytes
+        if s.flag != "delete-long" {
+            let Some(inflight) = klog.iter().rev().find_map(|r| {
+                let name = r.p1.rsplit('/').next().unwrap_or("");
+                name.strip_suffix(".copia-tmp").map(str::to_string)
+            }) else { continue };
+            let Some((rel, _)) = src0.iter().find(|(p, _)| p.rsplit('/').next() == Some(inflight.as_str())) else { continue };
+            slot.restore();
+            let _ = slot.run(s, Some(&logp), Some(k));
+            let short: Vec<u8> = b"shorter replacement of the file that was being transferred".to_vec();
+            write_files(&slot.src(), &[(rel.as_str(), short.clone())]);
+            crate::c19::set_mtime(&slot.src().join(rel), 1_600_000_500, 0);
+            let (rc, _, re) = slot.run(s, None, None);
+            evals.fetch_add(1, Ordering::Relaxed);
+            let got = std::fs::read(slot.dst().join(rel)).ok();
+            if rc != Some(0) {
+                out.push(Violation::new("rerun_fails", format!("scenario {name}, killed before call {k}, then source {rel} replaced by a shorter file: the re-run exits {rc:?}: {}", re.lines().last().unwrap_or("")), det(k)).with("direction", json!(s.dir)).with("post_crash_edit", json!(true)));
+            } else if got.as_deref() != Some(&short[..]) {
+                out.push(Violation::new("mixed_destination", format!("scenario {name}, killed before call {k}, then source {rel} replaced by a shorter file ({} bytes): after the completed re-run the destination holds {} bytes that are not the new source", short.len(), got.as_ref().map_or(0, Vec::len)), det(k)).with("direction", json!(s.dir)).with("post_crash_edit", json!(true)));
+            }
+            if out.len() >= 3 {
+                return out;
+            }
+        }
     }
     out
 }
@@ -1330,7 +1357,7 @@ pub fn run_c09(ctx: &Ctx) -> ! {
     let mut tkill = json!(null);
     if ctx.replay.is_none() {
         let mut rows = Vec::new();
-        let systems: Vec<(&'static str, usize, usize, u32, u64)> = if thorough { vec![("T7", 3, 4, 1, 400), ("T7", 2, 1, 1, 400), ("T8", 4, 4, 0, 100)] } else { vec![("T7", 3, 4, 0, 50), ("T7", 2, 1, 0, 50)] };
+        let systems: Vec<(&'static str, usize, usize, u32, u64)> = if thorough { vec![("T7", 3, 4, 1, 400), ("T7", 2, 1, 1, 400), ("T8", 4, 4, 0, 100)] } else { vec![("T7", 3, 4, 0, 50), ("T7", 2, 1, 0, 50), ("T11", 3, 4, 0, 50)] };
         for (template, jobs, workers, bound, cap) in systems {
             let c = crate::e5::Cfg { dir: "local", delete: true, exclude: "", jobs, verbose: false, template };
             let (scheds, kills, vs) = crate::e6::explore_local_kills(&c, &["a"], bound, workers, cap, 16);
